@@ -121,6 +121,34 @@ func (e *engine) generate(r *lib.Rng, tier string, i int) any {
 		if c := g.nilCase(); c != nil {
 			return c
 		}
+	case r.Chance(1, 40):
+		// arrays and slices: opaque leaf types outside the model's universe (direct oracle only); in particular
+		// as the whole input of the successor (F-C15m)
+		el := []string{"[2]int", "*[2]int", "[]int"}[r.Intn(3)]
+		var leaf *V
+		switch el {
+		case "[2]int":
+			leaf = &V{K: "arr", E: []int64{int64(r.Range(0, 5)), int64(r.Range(0, 5))}}
+		case "*[2]int":
+			leaf = vPtr("[2]int", &V{K: "arr", E: []int64{int64(r.Range(0, 5)), int64(r.Range(0, 5))}})
+			if r.Chance(1, 4) {
+				leaf = vNilPtr("[2]int")
+			}
+		default:
+			leaf = &V{K: "sl", E: []int64{int64(r.Range(1, 5))}}
+			if r.Chance(1, 4) {
+				leaf = &V{K: "sl", Nil: true}
+			}
+		}
+		src := vMap(el)
+		src.F["k"] = leaf
+		c := &Case{T: el, Short: r.Chance(1, 2), Note: "array-input",
+			Decls: []Decl{{S: "map[string]" + el, Val: src, Maps: []Mapping{{From: []string{"k"}}}}}}
+		if el != "[]int" && r.Chance(1, 2) {
+			c.T = "map[string]" + el
+			c.Decls[0].Maps[0].To = []string{"j"}
+		}
+		return c
 	case r.Chance(1, 10):
 		// the whole successor input from one field of one predecessor (FromField / FromFieldPath), for
 		// every kind of input type (struct, pointer, map, any): the only mapping the node can have
@@ -438,6 +466,25 @@ func (e *engine) Run(ci any) lib.Result {
 				}
 			}
 		}
+		// Stream into an ordinary successor node: the engine concatenates the converted chunks into the
+		// node's input, which must be the input Invoke hands over. Chunks of a struct / pointer type without a
+		// registered concat function cannot be concatenated when more than one is non-zero (eino's documented
+		// limitation, property C14): that error is the only excuse.
+		switch o.Concat {
+		case "panic", "hang":
+			fail(o.Concat+":stream-concat", "Stream into an invokable successor: "+o.Concat+" "+o.ConMsg)
+		case "ok":
+			switch {
+			case o.Stream != "ok":
+				fail("stream-concat", "Stream into an invokable successor succeeded, into a stream-transparent one: "+o.Stream+" "+o.StrMsg)
+			case o.Invoke == "ok" && !looseEq(o.ConVal, o.InvVal):
+				fail("stream-concat", fmt.Sprintf("Invoke hands the successor %s, Stream (chunks concatenated) %s", loose(o.InvVal), loose(o.ConVal)))
+			}
+		case "err":
+			if o.Stream == "ok" && !(strings.Contains(o.ConMsg, "concat") && len(o.StrVals) >= 2) {
+				fail("stream-concat", "Stream into an invokable successor failed ("+o.ConMsg+"), into a stream-transparent one it succeeded")
+			}
+		}
 		if single && o.Invoke == "err" && o.Stream == "ok" {
 			// only a missing map key may turn an Invoke error into a skipped mapping
 			missing := false
@@ -464,9 +511,14 @@ func (e *engine) Run(ci any) lib.Result {
 	}
 
 	// --- model side
-	if o.Invoke != "hang" && o.Stream != "hang" {
+	opaque := opaqueType(c.T)
+	for i := range c.Decls {
+		opaque = opaque || opaqueType(c.Decls[i].S)
+	}
+	if o.Invoke != "hang" && o.Stream != "hang" && !opaque {
 		res.CoqTerm = coqTerm(orig, o)
 	}
+
 
 	// --- bookkeeping
 	nm := 0
@@ -490,6 +542,12 @@ func (e *engine) Run(ci any) lib.Result {
 	}
 	if multiChunk {
 		res.Tags = append(res.Tags, "multi-chunk")
+	}
+	if o.Concat != "" {
+		res.Tags = append(res.Tags, "concat:"+o.Concat)
+	}
+	if opaque {
+		res.Tags = append(res.Tags, "opaque-leaf")
 	}
 	if len(c.Statics) > 0 {
 		res.Tags = append(res.Tags, fmt.Sprintf("statics:%d", len(c.Statics)))
